@@ -335,6 +335,13 @@ def robustness_corpus(ctx, rng):
         out.append(('lp', rc.make_lp(fragment=i, pit_token=b'\x01\x02')))
         out.append(('lp', rc.make_lp(fragment=bytes(make_data(nm, MetaInfo(), b'w', sd)), headers=[(0x340, b'\x01')])))
         out.append(('lp', rc.make_lp(fragment=bytes(make_data(nm, MetaInfo(), b'w', sd)), nack_reason=100)))
+    # Nacks and Data whose name is a pending Interest's name plus a digest component of the wrong size (none of them is that name)
+    for nm in (P1, P2):
+        for tail in (b'\x01\x00', b'\x01\x01\x07', b'\x01\x1f' + bytes(31), b'\x02\x00', b'\x01\x21' + bytes(33)):
+            iw = rc.enc_tlv(5, rc.enc_name(list(nm) + [tail]) + rc.enc_tlv(0x0a, b'\x00\x00\x00\x09'))
+            out.append(('lp', rc.make_lp(fragment=iw, nack_reason=rng.choice([50, 150]))))
+            out.append(('lp', rc.make_lp(fragment=iw, nack=True, pit_token=b'\x07')))
+            ctx.event('nack-naming-a-pending-name-plus-an-odd-sized-digest-component')
     # well-formed packets whose names are awkward to PRINT (typed components that hold no number: 2000 / 3 / 0 octets) - whether and how the
     # application logs is no input of reception
     for nm in ([rc.comp(8, b'h'), rc.comp(50, b'\x01' * 2000)], [rc.comp(8, b'p'), rc.comp(54, b'\x01\x02\x03')], [rc.comp(8, b'h'), rc.comp(58, b'')]):
@@ -908,5 +915,6 @@ def run(ctx):
     ctx.need_event('burst-to-table-editing-handlers')
     ctx.need_event('table-edited-inside-a-callback:detach-self')
     ctx.need_event('detach-while-a-validator-is-waiting')
+    ctx.need_event('nack-naming-a-pending-name-plus-an-odd-sized-digest-component')
     ctx.assumptions = ['handler exceptions and validator exceptions of user code are outside the statement (harness handlers never raise)',
                        '"legitimately addressed" = the bytes strictly decode (refcodec) to a Data/Nack matching the pending Interest']
